@@ -17,5 +17,6 @@ CFG = dict(
         explanation="Theorems C07.* over the vault model (rate, bond, unbond, borrow on raw LegacyDec integers): fair issue/redeem, round trip <= a + one share's "
                     "worth, other holders' redeemable value, bounded rate fall (with witnesses), the 90% cap as coded; model = code checked by "
                     "differential op sequences (result kind, shares minted, payout, TotalValue, supply, cash, rate, debt record, interest); the proved "
-                    "inequalities evaluated on the implementation's own numbers after every op.",
+                    "inequalities evaluated on the implementation's own numbers after every op."
+                " Governance parameter updates drafted some operations earlier (op govparams) leave the model state unchanged and must not lower the redemption rate.",
     )
